@@ -50,12 +50,79 @@ def semantic_build(res, facts, entries, rules):
     return True
 
 
+def set_claim_sem(facts, b):
+    """PasetoBuilder::set_claim interpreted on concrete builder states: top_level_claims in {{}, {K}, {other}}, the flag (false, ""), a claim
+    with key K (a custom key and "nbf"), the inner builder summarised.  Contract: the key is in the set afterwards, nothing else changes
+    in it; the flag becomes (true, K) exactly when K was there before; the value goes to GenericBuilder::set_claim once.
+    Returns list of (rule, ok, description / message) or None when undecided."""
+    from .. import models as MD
+    from .. import models_iter as MI
+    out = []
+    for K in ("K", "nbf"):
+        for before in ([], [K], ["other"]):
+            I = A.Interp(facts, MD.MODELS)
+            I.concrete_maps = True
+
+            def inner(name):
+                def f(I_, st_, args_):
+                    st_.events.append((name, [getattr(MD.deref(I_, st_, a), "name", None) or MD.describe(I_, st_, a) for a in args_[1:]]))
+                    return args_[0]
+                return f
+            I.fn_stubs = [(re.compile(r"GenericBuilder::<.*>::set_claim$"), inner("inner_set_claim")), (re.compile(r"GenericBuilder::<.*>::remove_claim$"), inner("inner_remove_claim"))]
+            st = A.State()
+            flag0 = A.Struct("(tuple)", None, {"0": A.BoolV(False), "1": A.StrV("")})
+            me_v = A.Struct("crate::prelude::paseto_builder::PasetoBuilder", None, {
+                "version": A.UNIT, "purpose": A.UNIT, "builder": A.Sym("self.builder"), "top_level_claims": MI.mapv("top_level_claims", [(A.StrV(k), A.UNIT) for k in before]),
+                "dup_top_level_found": flag0, "non_expiring_token": A.BoolV(False)})
+            me = st.new_cell(me_v)
+            outs = I.run(b, [A.Ptr(me), A.Sym("value", attrs={"claim_key": K})], st)
+            if not outs:
+                return None
+            pre = "key %r, keys set before %s" % (K, before)
+            for o in outs:
+                if o.kind != "return" or _fpai.undecided(o):
+                    return None
+                cur = MD.deref(I, o.state, A.Ptr(me))
+                if not isinstance(cur, A.Struct):
+                    return None
+                m = MD.deref(I, o.state, cur.fields.get("top_level_claims"))
+                fl = MD.deref(I, o.state, cur.fields.get("dup_top_level_found"))
+                ne = I.resolve(o.state, cur.fields.get("non_expiring_token"))
+                if not MI.is_map(m) or not isinstance(fl, A.Struct):
+                    return None
+                got = sorted(str(MD.str_key(I, o.state, e.fields["0"])[1]) for e in MI._entries(m))
+                f0, f1 = I.resolve(o.state, fl.fields.get("0")), MD.deref(I, o.state, fl.fields.get("1"))
+                flag = (f0.b if isinstance(f0, A.BoolV) else None, f1.s if isinstance(f1, A.StrV) else repr(f1))
+                want_flag = (True, K) if K in before else (False, "")
+                probs = []
+                if got != sorted(set(before) | {K}):
+                    probs.append("the keys recorded afterwards are %s instead of %s" % (got, sorted(set(before) | {K})))
+                if flag != want_flag:
+                    probs.append("the duplicate flag is %r instead of %r" % (flag, want_flag))
+                out.append(("C17.R1", not probs, "set_claim [%s]: %s" % (pre, "; ".join(probs) or "key recorded, flag %s" % ("set to (true, key)" if K in before else "untouched"))))
+                fw = [e for e in o.state.events if e[0] == "inner_set_claim"]
+                okf = len(fw) == 1 and fw[0][1] == ["value"]
+                out.append(("C17.R5", okf, "set_claim [%s]: %s" % (pre, "value forwarded to GenericBuilder::set_claim" if okf else "every caller-supplied claim must go to GenericBuilder::set_claim(value) exactly once; calls: %s" % [e[1] for e in fw])))
+                if not (isinstance(ne, A.BoolV) and ne.b is False):
+                    out.append(("C17.R2", False, "set_claim [%s]: the acknowledgement flag is written (%r)" % (pre, ne)))
+    return out
+
+
 def set_claim(res, facts):
     b = _fpai.find_body(facts, PB + r"set_claim$")
     if b is None:
         res.violate("C17.R1", "PasetoBuilder::set_claim", "anchor missing", "PasetoBuilder::set_claim not found")
         return
     v = M.view(facts, b)
+    sem = set_claim_sem(facts, b)
+    if sem is not None:
+        for rule, ok, text in sem:
+            res.oblige(ok)
+            if ok:
+                res.inst(rule, text)
+            else:
+                res.violate(rule, b["id"], text.split(":")[0][:80] + " " + rule, text, file=v.file(), line=b["line"])
+        return
     I, me, outs = _fpai.run_on_self(facts, b, [A.Sym("value")])
     if not outs:
         res.violate("C17.R1", b["id"], "no outcome", "abstract interpretation produced no path")
